@@ -30,7 +30,7 @@ import nfc.llcp
 import nfc.snep
 
 from vlib import p2p, vsched
-from vlib.engine import Leg, Violation, unexpected
+from vlib.engine import HarnessError, Leg, Violation, unexpected
 
 PROPERTY = "C09"
 LEVEL = "exploration"
@@ -483,7 +483,10 @@ def enum_preempt(tier, seed):
 
 # two threads, every schedule: one socket call racing with terminate() ----
 RACE_CALLS = ["ldl-recvfrom", "raw-recv", "dlc-accept", "ldl-poll-recv",
-              "ldl-sendto", "resolve", "dlc-connect", "raw-send"]
+              "ldl-sendto", "resolve", "dlc-connect", "raw-send",
+              # on an established data link connection
+              "dlc-recv", "dlc-send", "dlc-send-window-full",
+              "dlc-poll-recv", "dlc-poll-send", "dlc-poll-acks"]
 
 
 def run_race(case, ctx):
@@ -512,6 +515,30 @@ def run_race(case, ctx):
         elif call == "dlc-connect":
             sock = nfc.llcp.Socket(llc, DLC)
             sock.bind(36)
+        elif call.startswith("dlc-"):
+            # establish a connection first: connect() in a helper thread, the
+            # CC PDU handed in the way the link thread does; the schedule
+            # choices of the case apply to the race only
+            sock = nfc.llcp.Socket(llc, DLC)
+            sock.bind(37)
+            s.choices = []
+            est = {}
+
+            def setup():
+                sock.connect(41)
+                est["ok"] = True
+            s.spawn(setup, "setup")
+            s.settle()
+            llc.sap[37].dequeue(128, 0)             # the CONNECT PDU
+            llc.sap[37].enqueue(nfc.llcp.pdu.ConnectionComplete(
+                37, 41, 128, 1))
+            s.settle()
+            if not est.get("ok"):
+                raise HarnessError("race setup: connect() did not return")
+            if call == "dlc-send-window-full":
+                sock.send(b"1", nfc.llcp.MSG_DONTWAIT)
+                llc.sap[37].dequeue(128, 0)         # V(S)=1, RW(R)=1: full
+            s.choices, s.ci = list(case["choices"]), 0
 
         def app():
             try:
@@ -531,6 +558,17 @@ def run_race(case, ctx):
                     sock.connect(40)
                 elif call == "raw-send":
                     sock.send(nfc.llcp.pdu.UnnumberedInformation(1, 34, b"x"))
+                elif call == "dlc-recv":
+                    sock.recv()
+                elif call in ("dlc-send", "dlc-send-window-full"):
+                    sock.send(b"x")
+                elif call == "dlc-poll-recv":
+                    sock.poll("recv", None)
+                elif call == "dlc-poll-send":
+                    sock.send(b"1", nfc.llcp.MSG_DONTWAIT)
+                    sock.poll("send", None)
+                elif call == "dlc-poll-acks":
+                    sock.poll("acks", None)
             except nfc.llcp.Error:
                 pass
             except (vsched.Abort, vsched.StepBudget):
